@@ -112,21 +112,15 @@ Proof. vm_compute. reflexivity. Qed.
 Example ex_svc_bad_unknown : svc_trace_ok [ECReq 1; ESResp 2] = false. Proof. vm_compute. reflexivity. Qed.
 Example ex_svc_bad_twice : svc_trace_ok [ECReq 1; ESResp 1; ESResp 1] = false. Proof. vm_compute. reflexivity. Qed.
 Example ex_svc_bad_exit : svc_trace_ok [ECReq 1; EClose; EExit] = false. Proof. vm_compute. reflexivity. Qed.
-(* the packet trace of the refutation witness has the shape of the recorded transcript *)
-Example ex_witness_trace : option_map snd (srun sst0 (wit_second_dispose ++ [SRespond 4])) =
-  Some [ECReq 1; ESResp 1; ECReq 2; ESReq 0; ECReq 3; ECReq 4; ESResp 4].
+(* the former refutation witnesses are no longer runs: the second dispose and
+   the cancel after dispose cannot answer while the build is running ... *)
+Example ex_second_dispose_blocked : srun sst0 (wit_second_dispose ++ [SRespond 4]) = None.
 Proof. vm_compute. reflexivity. Qed.
-(* the resolver cache and the write barrier in the model and in the checker *)
-Example ex_resolve_cached : brun 1 1 bst0 [AStartBegin 0%nat; AStartEnd 0%nat; ABarrier; AVisit 0%nat; ALoad 0%nat;
-                                           AResolveIn 0%nat 5%nat; AResolveIn 0%nat 5%nat] = None.
+Example ex_cancel_after_dispose_blocked : srun sst0 (wit_cancel_after_dispose ++ [SRespond 4]) = None.
 Proof. vm_compute. reflexivity. Qed.
-Example ex_no_write_while_parsing : brun 1 1 bst0 [AStartBegin 0%nat; AStartEnd 0%nat; ABarrier; AVisit 0%nat; ALoad 0%nat; AWrite] = None.
-Proof. vm_compute. reflexivity. Qed.
-Example ex_build_bad_resolve_twice : build_trace_ok 1 1 [PSB 0; PSE 0; PLoad 0; PResK 0 1; PResK 0 1] = false.
-Proof. vm_compute. reflexivity. Qed.
-Example ex_build_bad_resolve_unloaded : build_trace_ok 1 1 [PSB 0; PSE 0; PResK 0 1] = false.
-Proof. vm_compute. reflexivity. Qed.
-Example ex_build_bad_load_after_end : build_trace_ok 1 1 [PSB 0; PSE 0; PEB 0 true; PLoad 0] = false.
+(* ... they answer after the build ended and the first dispose finished *)
+Example ex_second_dispose_later : option_map snd (srun sst0 (wit_second_dispose ++ [SCResp 0; SBuildEnd 2; SRespond 2; SRespond 3; SRespond 4])) =
+  Some [ECReq 1; ESResp 1; ECReq 2; ESReq 0; ECReq 3; ECReq 4; ECResp 0; ESResp 2; ESResp 3; ESResp 4].
 Proof. vm_compute. reflexivity. Qed.
 
 (* ---- watch mode: a change during a build triggers one more build ---- *)
